@@ -80,7 +80,7 @@ func main() {
 	workers := flag.Int("workers", 16, "workers")
 	maxPaths := flag.Int64("max-paths", 0, "path budget (0 = none)")
 	maxSec := flag.Float64("max-seconds", 0, "time budget")
-	maxSteps := flag.Int64("max-steps", 1_000_000, "instruction budget per path")
+	maxSteps := flag.Int64("max-steps", 5_000_000, "instruction budget per path")
 	timeout := flag.Int("timeout-ms", 10000, "per query timeout")
 	solver := flag.String("solver", "z3 -in", "solver command")
 	fallback := flag.String("fallback", "z3-new -in -T:120", "one-shot solver used when the main solver answers unknown (empty = none)")
